@@ -11,7 +11,9 @@ Conventions of the transcription
 * `Option` on a proto-side *message* field is its presence bit (`HasField`); proto3 scalar fields
   have no presence: "absent" is the default value (`0`, `""`), which is why a truthiness test
   (`if proto.x:`) and a presence test differ;
-* a Python dict is an insertion-ordered association list (`insBy`, `modifyD`);
+* a Python dict is an insertion-ordered association list (`insBy`, `modifyD`); empty
+  `Metadata` stores (the root store every `Metadata()` owns, stores created by a mere read) are
+  representable but invisible (`mdNorm`), and the harness does not send them;
 * `str(int)` / `int(str)` of trial ids are the identity on `Int` (trusted base: Python int printing);
 * `from_proto` is modelled on its success path: the `ValueError`s of `ParameterConfig.factory`,
   `SearchSpace.add` (duplicate name), `subspace` (infeasible parent value) are outside the model
